@@ -23,7 +23,9 @@
     codec_roundtrip_thm, stale_seed_invalid_thm — restated below); a fresh seed
     differs from all earlier ones ([fresh] guard); a successful Sync makes every
     write issued before its call durable; sector writes are atomic; rename is
-    durable after the directory fsync; same geometry across restarts. *)
+    durable after the directory fsync; same geometry across restarts.
+    Repeated crashes (arbitrarily many lives): [repeated_crash], [repeated_crash_bytes],
+    [no_overwrite_after_restart], [safe_medium_closed] below (Persist/CrashRepeat*.v). *)
 From Coq Require Import List NArith ZArith Bool Arith Lia.
 From BBS Require Import Common.Sx Persist.PBL Persist.Syncer Persist.Crash Persist.CrashLts
   Persist.CrashEpochProofs Persist.CrashAllocProofs Persist.CrashOffsetsProofs Persist.CrashReuseProofs Persist.CrashSafe Index.RecordCodec Index.RecordCodecProofs Run.R02.
@@ -146,19 +148,13 @@ Theorem restored_offsets_cover : forall g cfg t0 c, length (g_locs g) < 65536 ->
 Proof. exact CrashOffsetsProofs.restored_offsets_cover. Qed.
 Print Assumptions restored_offsets_cover.
 
-(** ---- no overwrite after restart ----
-    FULL STATEMENT (no_overwrite_after_restart): for a store restarted on the media of ANY crash of a
-    first life, no data write of the new life touches the bytes of a location that resolved at the
-    restart, until a state file without that block is durable.
-    Proved: (a) every data write of a life into a block restored at its start lies at or above the
-    restored write offset rounded up to a sector (any base medium); (b) for a second life started on
-    the crashed media of a first life: every data write into restored block i lies above the end of
-    every location that resolves to block i.  Missing: a write into a NEW block allocated on the
-    region of a restored block that was popped and released during the second life — covered by
-    the release discipline of the model ([release_regions]: a region returns to the free list only
-    when NotifyPersistentStateWritten ran, i.e. after the six directory operations of a state write
-    completed; proved for the first life as [region_reused_only_after_durable_state]) and by the
-    harness, not yet by a theorem for a life that starts on non-empty media. *)
+(** ---- no overwrite after restart: the two-life forms ----
+    (a) every data write of a life into a block restored at its start lies at or above the
+    restored write offset rounded up to a sector (any base medium); (b) for a second life started
+    on the crashed media of a first life: every data write into restored block i lies above the end
+    of every location that resolves to block i.  The full statement — including writes into a NEW
+    block allocated on the region of a restored block that was popped and released during the life,
+    and for the media of ANY history of lives — is [no_overwrite_after_restart] below. *)
 Theorem no_overwrite_after_restart_block : forall g cfg base t0 c, (0 < g_sector g)%Z ->
   creach g cfg base t0 c ->
   forall q k l lo hi, nth_error (cs_log c) q = Some (IoData k l lo hi) ->
